@@ -20,8 +20,14 @@ def lemmas():
         z3.SuffixOf(r, x), x == z3.Concat(sp, r), z3.InRe(sp, spaces),
         z3.Length(sp) <= n,
         z3.Or(z3.Length(sp) == n, z3.Not(z3.PrefixOf(S(' '), r))),
+        # B7 (trusted, definitional): every character of a word of ' '* is
+        # a space - instantiated at the one position the argument needs
+        z3.Implies(z3.And(z3.Length(sp) >= 0,
+                          z3.Length(sp) < z3.Length(ind)),
+                   z3.SubString(ind, z3.Length(sp), 1) == S(' ')),
         # at least one space is there, so the pattern ^ {1,n} matches
         r != l],
-        'stripping up to n leading spaces from (n spaces + line) gives the '
-        'line back, whatever the line starts with'))
+        'L-indent-line: stripping up to n leading spaces from (n spaces + '
+        'line) gives the line back, whatever the line starts with (uses B7: '
+        'a word of the language " "* consists of spaces)'))
     return out
